@@ -168,7 +168,8 @@ func genMultiset(r *rand.Rand, n int) []vegeta.Result {
 	base := time.Unix(int64(r.Intn(7e9)), int64(r.Intn(1e9))) // 1970 .. 2191
 	tsMode, latMode := r.Intn(4), r.Intn(5)
 	codes := [][]uint16{{200}, {200, 404, 500}, {0, 100, 199, 200, 204, 302, 399, 400, 404, 599},
-		{25, 39, 200, 2000, 3999, 20000, 39999, 65535, 7, 99, 1000}}[r.Intn(4)]
+		{25, 39, 200, 2000, 3999, 20000, 39999, 65535, 7, 99, 1000},
+		{0, 1, 9, 10, 11, 99, 100, 101, 999, 1000, 1001, 9999, 10000, 10001, 65534, 65535}}[r.Intn(5)] // the last: every change in the number of digits
 	errs := []string{"", "", "", "e1", "e2", "connection refused", "Get \"http://x\": EOF", "500 Internal Server Error"}
 	if r.Intn(4) == 0 { // many distinct status codes
 		codes = nil
